@@ -47,5 +47,6 @@ Spec == Init /\ [][Next]_vars /\ WF_vars(Next)
 Done == stage = 2 /\ Qg = {QStart, QAccept}
 Result == dg[<<QStart, QAccept>>]
 ResultEquivalent == Done => ReEquivFa(Result, D)
+OwnAnswerPassesDfa2RegexpChecker == ResultEquivalent      \* C13: the checker compares the languages
 Terminates == <>Done
 =============================================================================
